@@ -406,6 +406,10 @@ def run(rep, tier):
         # "never corrupts memory or the document ... repeated application": new containers built by ParseSchema keep
         # views into the schema text buffer, so that buffer must outlive them (shared with C13 clause g)
         clause_event_kind(facts, rep)
+        # declared keys are matched by their whole name: any byte comparison of key data is dominated by a length equality (shared with C14)
+        from . import c14 as _c14
+        _c14.clause_eq_length(facts, rep)
+        _c14.clause_c(facts, rep)
         from . import c13
         c13.clause_g(facts, rep)
         c13.clause_c(facts, rep)     # a replaced document node is destroy()ed before - not after - its header is rewritten
